@@ -6,6 +6,8 @@ set -e
 cmake -G Ninja -S "$SRC" -B "$B" >/dev/null
 cmake --build "$B" >/dev/null
 cd "$B"
+# the io test compares against sqlite files left in the build tree by an earlier run (possibly of another library version)
+find "$B" -name "*.sqlite3" -delete
 OPENBLAS_NUM_THREADS=1 ctest --test-dir "$B" -j8 --timeout ${CTEST_TIMEOUT:-900} --output-on-failure -O "$B/ctest.log" > /dev/null || true
 grep -E "tests passed|tests failed" "$B/ctest.log" || true
 # the 62 baseline result lines are "<name>: OK" style lines printed by the test programs
